@@ -10,8 +10,8 @@
    directly inside an `if`/`except` does not displace an existing member). *)
 From Coq Require Import List ZArith String Bool Arith.
 From Verif Require Import Lib.Sexp Model.C01_base Gen.C01_tables Gen.C01_dispatch Model.C01_visitor Model.C01_content Model.C01_raw
-  Model.C01_layout Model.C01_resolve Model.C01_ext Proofs.C01_visitor Proofs.C01_vis Proofs.C01_content Proofs.C01_raw
-  Proofs.C01_layout Proofs.C01_resolve Proofs.C01_ext.
+  Model.C01_layout Model.C01_dedent Model.C01_resolve Model.C01_ext Proofs.C01_visitor Proofs.C01_vis Proofs.C01_content Proofs.C01_raw
+  Proofs.C01_layout Proofs.C01_dedent Proofs.C01_resolve Proofs.C01_ext.
 Import ListNotations.
 Open Scope string_scope. Open Scope list_scope. Open Scope nat_scope.
 
@@ -272,27 +272,30 @@ Theorem C01_all_extension_effect : forall items g pk nd own up,
 Proof. exact all_extension_effect. Qed.
 Print Assumptions C01_all_extension_effect.
 
-(* Object.lines / Object.source.  The lines of a reported object are the item's text, its source is [dedent] of it
-   (textwrap.dedent for space indentation): for every layout, at any depth. *)
+(* Object.lines / Object.source.  The lines of a reported object are the item's text, its source is [dedent_ws] of it
+   (textwrap.dedent, Model/C01_dedent.v): for every layout, at any depth. *)
 Theorem C01_object_lines_source : forall items pre post o,
   In o (occ_list (List.length pre + 1) items) ->
   object_lines (pre ++ render_list items ++ post) (o_first o) (o_last o) = o_text o /\
-  object_source (pre ++ render_list items ++ post) (o_first o) (o_last o) = dedent (o_text o).
+  object_source (pre ++ render_list items ++ post) (o_first o) (o_last o) = dedent_ws (o_text o).
 Proof. exact object_lines_source. Qed.
 Print Assumptions C01_object_lines_source.
 
-(* ... and [dedent] keeps the text, for every list of lines: as many lines; a blank line becomes empty; every other
-   line is [margin] blanks followed by what is kept (nothing but blanks is ever cut off, however little some line of the
-   span is indented: flush-left string content, left-aligned comment, continuation at column 0); unless all lines are
-   blank, some kept line starts at column 0. *)
-Theorem C01_source_dedent_only_blanks : forall ls,
-  List.length (dedent ls) = List.length ls /\
+(* ... and [dedent_ws] keeps the text, for every list of lines and every mixture of blanks and tabs: as many lines; a
+   whitespace-only line becomes empty; every other line is the SAME whitespace string [margin_ws ls] followed by what
+   is kept (nothing but that whitespace is ever cut off, however little some line of the span is indented: flush-left
+   string content, left-aligned comment, continuation at column 0, a tab where the others have blanks); and the margin
+   is the longest such string: every whitespace prefix common to the non-blank lines is a prefix of it. *)
+Theorem C01_source_dedent_only_whitespace : forall ls,
+  List.length (dedent_ws ls) = List.length ls /\
+  all_ws (margin_ws ls) = true /\
   (forall i l, nth_error ls i = Some l ->
-     nth_error (dedent ls) i = Some (if is_blank l then EmptyString else drop (margin ls) l) /\
-     (is_blank l = false -> l = String.append (spaces (margin ls)) (drop (margin ls) l))) /\
-  ((exists l, In l ls /\ is_blank l = false) -> exists l, In l ls /\ is_blank l = false /\ indent_of l = margin ls).
-Proof. exact dedent_only_blanks. Qed.
-Print Assumptions C01_source_dedent_only_blanks.
+     nth_error (dedent_ws ls) i = Some (if all_ws l then EmptyString else drop (String.length (margin_ws ls)) l) /\
+     (all_ws l = false -> l = String.append (margin_ws ls) (drop (String.length (margin_ws ls)) l))) /\
+  ((exists l, In l ls /\ all_ws l = false) ->
+   forall p, (forall l, In l ls -> all_ws l = false -> String.prefix p (lead l) = true) -> String.prefix p (margin_ws ls) = true).
+Proof. exact dedent_ws_spec. Qed.
+Print Assumptions C01_source_dedent_only_whitespace.
 
 (* ---------------------------------------------------------------------------------------------------------------
    Which callable a decorator spelling denotes (Model/C01_resolve.v).  Statements may carry unresolved references
@@ -337,3 +340,11 @@ Theorem C01_history_announces_to_registered : forall pre m b post c e,
     well_bracketed (visit_events m b) = true.
 Proof. exact history_announces_to_registered. Qed.
 Print Assumptions C01_history_announces_to_registered.
+
+(* ... and without any hypothesis on the container: an extension registered k times at that moment receives every event
+   of the visit k times in a row (k = 0: nothing; k = 1: exactly the trace). *)
+Theorem C01_history_announces_general : forall pre m b post c e,
+  exists log, nth_error (run_history c (pre ++ HVisit m b :: post)) (visits pre) = Some log /\
+    received e log = flat_map (fun ev => repeat ev (count_occ Nat.eq_dec (c ++ adds pre) e)) (visit_events m b).
+Proof. exact history_announces_general. Qed.
+Print Assumptions C01_history_announces_general.
